@@ -367,12 +367,31 @@ Definition upload_core (place : place_fun) (d1 : driver) (name : nat) (segs : li
       | (d3, None) =>
           let w3 := merge_w2s (d_w2s dec) (d_insert dec) in
           let '(d4, w4) := if existsb (fun b => b) (d_amend dec)
-                           then (let '(d4, idxs) := amend d3 (mask (d_amend dec) segs) in
+                           then (let '(d4, idxs) := amend (cleanup d3) (mask (d_amend dec) segs) in
                                  (d4, assign_mask w3 (d_amend dec) idxs))
                            else (d3, w3) in
           (with_known d4 ({| pg_name := name; pg_w2s := w4; pg_segs := map fst segs |} :: dv_known d4), None)
       end
   end.
+
+Lemma nth_firstn_app1 {A} F (l m : list A) i d : (i < F)%nat -> (F <= length l)%nat -> nth i (firstn F l ++ m) d = nth i l d.
+Proof. intros H1 H2. rewrite app_nth1 by (rewrite firstn_length; lia). apply nth_firstn'. exact H1. Qed.
+
+Lemma nth_firstn_app2 {A} F (l m : list A) i d :
+  (F <= i)%nat -> (F <= length l)%nat -> nth i (firstn F l ++ m) d = nth (i - F) m d.
+Proof.
+  intros H1 H2. rewrite app_nth2 by (rewrite firstn_length; lia). rewrite firstn_length.
+  replace (Nat.min F (length l)) with F by lia. reflexivity.
+Qed.
+
+Lemma firstn_app_length {A} F (l m : list A) : (F <= length l)%nat -> length (firstn F l ++ m) = (F + length m)%nat.
+Proof. intros H. rewrite app_length, firstn_length. lia. Qed.
+
+Lemma cnt_zero_unused ps i : (forall p, In p ps -> uses p i = false) -> cnt ps i = 0.
+Proof.
+  induction ps as [|p ps IH]; intros H; [reflexivity|]. rewrite cnt_cons, IH by (intros q Hq; apply H; right; exact Hq).
+  rewrite (H p (or_introl eq_refl)). reflexivity.
+Qed.
 
 Lemma upload_with_unfold place d name segs force :
   upload_with place d name segs force =
@@ -436,28 +455,61 @@ Section history.
     assert (Hbel3 : dv_hashes d3 = dv_dev d3) by (apply Hbel; cbn; apply I).
     set (w3 := merge_w2s (d_w2s dec) (d_insert dec)).
     set (segsA := mask (d_amend dec) segs).
-    set (fidx := fun k : nat => Z.of_nat (n + k)).
+    (* F = number of slots that survive the cleanup() before _amend_segments (all of them when nothing is appended) *)
+    set (F := if existsb (fun b => b) (d_amend dec) then first_free_of (dv_refs d3) else n).
+    set (fidx := fun k : nat => Z.of_nat (F + k)).
     set (w4 := assign_mask w3 (d_amend dec) (map fidx (seq 0 (length segsA)))).
+    assert (Hc3n : length (dv_caps d3) = n).
+    { rewrite Hc3. cbn [d2 with_refs dv_caps]. apply I. }
+    assert (HF_le : (F <= n)%nat).
+    { unfold F. destruct (existsb _ _); [|lia].
+      destruct (first_free_spec (dv_refs d3)) as (H & _). lia. }
+    assert (HF_ref : forall i, (i < n)%nat -> 1 <= nth i (dv_refs d3) 0 -> (i < F)%nat).
+    { intros i Hi Hr. unfold F. destruct (existsb _ _); [|exact Hi].
+      destruct (first_free_spec (dv_refs d3)) as (_ & _ & Hhi).
+      destruct (Nat.lt_ge_cases i (first_free_of (dv_refs d3))) as [|Hge]; [assumption|exfalso].
+      specialize (Hhi i Hge). rewrite (nth_map_lt (fun r => 0 <? r) _ _ _ 0) in Hhi by lia. lia. }
+    (* a slot that was referenced before the upload is not written and stays referenced *)
+    assert (Hmono : forall i, (i < n)%nat -> 1 <= nth i (dv_refs d1) 0 ->
+                              ~ In i (map fst ws) /\ 1 <= nth i (dv_refs d3) 0).
+    { intros i Hi Hr.
+      assert (Hni : ~ In i (map fst ws)).
+      { intros Hin. apply in_map_iff in Hin as ((s, (h, l)) & Hs & Hin). cbn in Hs. subst s.
+        destruct (Hw i h l Hin) as (_ & _ & _ & Hz & _). lia. }
+      split; [exact Hni|]. destruct (Hunch i Hni) as [H1 _]. rewrite H1. cbn [d2 with_refs dv_refs].
+      rewrite nth_incr_known by exact Hi. destruct (existsb _ (d_w2s dec)); lia. }
+    assert (HF1 : (1 <= F)%nat).
+    { assert (0 < F)%nat; [|lia]. apply HF_ref; [lia|]. apply Hmono; [lia|exact Hr0]. }
     assert (Hif : (if existsb (fun b => b) (d_amend dec)
-                   then (let '(d4, idxs) := amend d3 segsA in (d4, assign_mask w3 (d_amend dec) idxs))
+                   then (let '(d4, idxs) := amend (cleanup d3) segsA in (d4, assign_mask w3 (d_amend dec) idxs))
                    else (d3, w3)) =
-                  ({| dv_hashes := dv_hashes d3 ++ map fst segsA; dv_caps := dv_caps d3 ++ map snd segsA;
-                      dv_refs := dv_refs d3 ++ map (fun _ => 1) segsA; dv_total := dv_total d3;
-                      dv_known := dv_known d3; dv_dev := dv_dev d3 ++ map fst segsA |}, w4)).
-    { destruct (existsb (fun b => b) (d_amend dec)) eqn:Eany.
-      - unfold amend. cbn. unfold w4, fidx. rewrite Hc3. cbn [d2 with_refs dv_caps]. rewrite (j_len_c _ I). reflexivity.
-      - unfold w4, segsA. rewrite (mask_all_false _ _ Eany). cbn. rewrite assign_mask_nil, !app_nil_r.
-        destruct d3; reflexivity. }
+                  ({| dv_hashes := firstn F (dv_hashes d3) ++ map fst segsA;
+                      dv_caps := firstn F (dv_caps d3) ++ map snd segsA;
+                      dv_refs := firstn F (dv_refs d3) ++ map (fun _ => 1) segsA; dv_total := dv_total d3;
+                      dv_known := dv_known d3; dv_dev := firstn F (dv_dev d3) ++ map fst segsA |}, w4)).
+    { unfold F, w4, fidx. destruct (existsb (fun b => b) (d_amend dec)) eqn:Eany.
+      - unfold amend, cleanup. cbn [dv_hashes dv_caps dv_refs dv_total dv_known dv_dev].
+        rewrite firstn_length.
+        replace (Nat.min (first_free_of (dv_refs d3)) (length (dv_caps d3))) with (first_free_of (dv_refs d3)).
+        2:{ destruct (first_free_spec (dv_refs d3)) as (H & _). lia. }
+        reflexivity.
+      - unfold segsA. rewrite (mask_all_false _ _ Eany). cbn [map length seq]. rewrite assign_mask_nil, !app_nil_r.
+        rewrite <- Lh3 at 1. rewrite <- Hc3n at 1. rewrite <- Lr3 at 1. rewrite <- Ld3 at 1.
+        rewrite !firstn_all. destruct d3; reflexivity. }
     rewrite Hif. clear Hif. cbn [fst with_known dv_known].
     (* helper facts about the entries of the new program *)
     assert (Hm_w3 : length w3 = length (d_amend dec)) by (unfold w3; rewrite merge_w2s_length; lia).
     assert (Hdev1 : length (dv_dev d1) = n) by apply I.
     assert (Hold : forall i, (i < n)%nat -> ~ In i (map fst ws) -> nth i (dv_dev d3) 0 = nth i (dv_dev d1) 0).
     { intros i Hi Hni. destruct (Hunch i Hni) as [_ H]. exact H. }
+    assert (Hrefs1_nonneg : forall i, 0 <= nth i (dv_refs d1) 0).
+    { intros i. destruct (Nat.lt_ge_cases i n) as [Hi|Hi]; [|rewrite nth_overflow by (unfold n in Hi; lia); lia].
+      pose proof (j_refs _ I i Hi). pose proof (cnt_nonneg (dv_known d1) i). unfold idle in *.
+      destruct (Nat.eqb i 0); lia. }
     assert (Hentry : forall j x, nth_error w4 j = Some x ->
-              exists i, x = Z.of_nat i /\ (i < n + length segsA)%nat /\
-                        nth i (dv_dev d3 ++ map fst segsA) 0 = nth j (map fst segs) 0 /\
-                        ((i < n)%nat -> ~ In i (map fst ws) -> In (Z.of_nat i) (d_w2s dec))).
+              exists i, x = Z.of_nat i /\ (i < F + length segsA)%nat /\
+                        nth i (firstn F (dv_dev d3) ++ map fst segsA) 0 = nth j (map fst segs) 0 /\
+                        ((i < F)%nat -> ~ In i (map fst ws) -> In (Z.of_nat i) (d_w2s dec))).
     { intros j x Hx. unfold w4 in Hx.
       destruct (assign_mask_spec fidx w3 (d_amend dec) segs 0 Hm_w3 ltac:(lia) j x Hx) as (p & b & Hp & Hb & Hcase).
       fold segsA in Hcase.
@@ -470,9 +522,9 @@ Section history.
       unfold w3 in Hp. rewrite (merge_w2s_nth _ _ _ _ _ Hp0 Hq) in Hp. inversion Hp; subst p; clear Hp.
       rewrite (nth_of_nth_error_map fst _ _ _ Hhl). cbn [fst].
       destruct b.
-      - destruct Hcase as (r & -> & Hr & Hnr). unfold fidx. exists (n + r)%nat. cbn [Nat.add].
+      - destruct Hcase as (r & -> & Hr & Hnr). unfold fidx. exists (F + r)%nat. cbn [Nat.add].
         split; [reflexivity|]. split; [lia|]. split; [|intros; lia].
-        rewrite app_nth2 by lia. replace (n + r - length (dv_dev d3))%nat with r by lia.
+        rewrite nth_firstn_app2 by lia. replace (F + r - F)%nat with r by lia.
         rewrite Hhl in Hnr. apply (nth_of_nth_error_map fst) in Hnr. exact Hnr.
       - subst x. unfold exactly_one in Hone.
         assert (Hc : (p0 <> -1 /\ q = -1) \/ (p0 = -1 /\ q <> -1)).
@@ -481,51 +533,71 @@ Section history.
         + (* reused *)
           cbn. destruct (C1 j p0 Hp0 Hp0ne) as (i & h' & -> & Hhi & Hnh).
           apply (map_nth_error fst) in Hhl. rewrite Hhl in Hnh. inversion Hnh; subst h'.
-          apply (nth_error_nth' _ _ 0) in Hhi as [Hi Hhi]. rewrite (j_len_h _ I) in Hi.
-          exists i. split; [reflexivity|]. split; [unfold n; lia|].
+          apply (nth_error_nth' _ _ 0) in Hhi as [Hi Hhi]. rewrite (j_len_h _ I) in Hi. fold n in Hi.
+          assert (Hni : ~ In i (map fst ws)).
+          { intros Hin. apply in_map_iff in Hin as ((s, (h2, l2)) & Hs & Hin). cbn in Hs. subst s.
+            destruct (Hw i h2 l2 Hin) as (_ & _ & _ & _ & Hnot). apply Hnot. eapply nth_error_In. exact Hp0. }
+          assert (HiF : (i < F)%nat).
+          { apply HF_ref; [exact Hi|]. destruct (Hunch i Hni) as [H1 _]. rewrite H1. cbn [d2 with_refs dv_refs].
+            rewrite nth_incr_known by exact Hi.
+            assert (E : existsb (Z.eqb (Z.of_nat i)) (d_w2s dec) = true).
+            { apply existsb_Z_in. eapply nth_error_In. exact Hp0. }
+            rewrite E. pose proof (Hrefs1_nonneg i). lia. }
+          exists i. split; [reflexivity|]. split; [lia|].
           split; [|intros _ _; eapply nth_error_In; exact Hp0].
-          rewrite app_nth1 by lia. rewrite Hold; [rewrite <- (j_belief _ I); exact Hhi|exact Hi|].
-          intros Hin. apply in_map_iff in Hin as ((s, (h2, l2)) & Hs & Hin). cbn in Hs. subst s.
-          destruct (Hw i h2 l2 Hin) as (_ & _ & _ & _ & Hnot). apply Hnot. eapply nth_error_In. exact Hp0.
+          rewrite nth_firstn_app1 by lia. rewrite Hold; [rewrite <- (j_belief _ I); exact Hhi|exact Hi|exact Hni].
         + (* inserted *)
           destruct (C2a j q Hq Hqne) as (i & c & l' & -> & Hri & _).
-          apply (nth_error_nth' _ _ 0) in Hri as [Hi Hri].
+          apply (nth_error_nth' _ _ 0) in Hri as [Hi Hri]. fold n in Hi.
           assert (Hi0 : i <> 0%nat) by (intros ->; lia).
           assert (Hpos : 0 <? Z.of_nat i = true) by lia. rewrite Hpos.
           assert (Hin : In (i, (h, l)) ws).
           { apply writes_of_spec. exists j, (Z.of_nat i). repeat split; auto; lia. }
-          exists i. split; [reflexivity|]. split; [unfold n; lia|].
+          assert (HiF : (i < F)%nat).
+          { apply HF_ref; [exact Hi|]. destruct (Hwr i h l Hin) as [H1 _]. lia. }
+          exists i. split; [reflexivity|]. split; [lia|].
           split; [|intros _ Hni; exfalso; apply Hni; apply in_map_iff; exists (i, (h, l)); auto].
-          rewrite app_nth1 by lia. apply (Hwr i h l Hin). }
+          rewrite nth_firstn_app1 by lia. apply (Hwr i h l Hin). }
+    (* no old program uses a slot that the cleanup drops *)
+    assert (Hold_lt : forall p i, In p (dv_known d1) -> uses p i = true -> (i < F)%nat /\ ~ In i (map fst ws)).
+    { intros p i Hp Hu.
+      pose proof (j_progs _ I) as Hall. rewrite Forall_forall in Hall.
+      pose proof (prog_ok_uses_lt _ _ _ (Hall p Hp) Hu) as Hi. rewrite Hdev1 in Hi.
+      pose proof (cnt_in _ p i Hp Hu) as Hc. pose proof (j_refs _ I i Hi) as Hr.
+      assert (H1 : 1 <= nth i (dv_refs d1) 0) by (unfold idle in Hr; destruct (Nat.eqb i 0); lia).
+      destruct (Hmono i Hi H1) as [Hni H3]. split; [apply HF_ref; assumption|exact Hni]. }
     constructor; cbn.
-    - rewrite !app_length, !map_length. lia.
-    - rewrite !app_length, !map_length, Hc3. cbn. rewrite (j_len_c _ I). fold n. lia.
-    - rewrite !app_length, !map_length. lia.
-    - rewrite app_length. lia.
+    - rewrite !firstn_app_length, !map_length by lia. reflexivity.
+    - rewrite !firstn_app_length, !map_length by lia. reflexivity.
+    - rewrite !firstn_app_length, !map_length by lia. reflexivity.
+    - rewrite firstn_app_length by lia. lia.
     - (* reference counts dominate the number of programs using a slot *)
-      rewrite app_length, map_length, Lr3. intros i Hi. rewrite cnt_cons. rewrite Hk3. cbn [d2 with_refs dv_known].
+      rewrite firstn_app_length, map_length by lia. intros i Hi. rewrite cnt_cons. rewrite Hk3.
+      cbn [d2 with_refs dv_known].
       assert (Hle1 : (if uses {| pg_name := name; pg_w2s := w4; pg_segs := map fst segs |} i then 1 else 0) <= 1)
         by (destruct (uses _ i); lia).
-      destruct (Nat.lt_ge_cases i n) as [Hlt|Hge].
-      + rewrite app_nth1 by lia.
+      destruct (Nat.lt_ge_cases i F) as [Hlt|Hge].
+      + rewrite nth_firstn_app1 by lia.
+        assert (Hltn : (i < n)%nat) by lia.
         destruct (in_dec Nat.eq_dec i (map fst ws)) as [Hin|Hnin].
         * apply in_map_iff in Hin as ((s, (h, l)) & Hs & Hin). cbn in Hs. subst s.
           destruct (Hwr i h l Hin) as [H1 _]. rewrite H1.
           destruct (Hw i h l Hin) as (_ & _ & _ & Hz & _).
-          pose proof (j_refs _ I i Hlt) as Hr. pose proof (cnt_nonneg (dv_known d1) i).
+          pose proof (j_refs _ I i Hltn) as Hr. pose proof (cnt_nonneg (dv_known d1) i).
           assert (idle i = 0). { unfold idle. destruct (Nat.eqb_spec i 0); [subst; lia|reflexivity]. }
           lia.
         * destruct (Hunch i Hnin) as [H1 _]. rewrite H1. cbn [d2 with_refs dv_refs].
-          rewrite nth_incr_known by exact Hlt. pose proof (j_refs _ I i Hlt) as Hr.
+          rewrite nth_incr_known by exact Hltn. pose proof (j_refs _ I i Hltn) as Hr.
           destruct (uses {| pg_name := name; pg_w2s := w4; pg_segs := map fst segs |} i) eqn:Eu.
           2:{ destruct (existsb _ (d_w2s dec)); lia. }
           apply uses_spec in Eu. cbn [pg_w2s] in Eu. apply In_nth_error in Eu as (j & Hj).
           destruct (Hentry j _ Hj) as (i' & Heq & _ & _ & Himp). assert (i' = i) by lia. subst i'.
           specialize (Himp Hlt Hnin). apply existsb_Z_in in Himp. rewrite Himp. lia.
-      + rewrite app_nth2 by lia.
-        assert (Hone : nth (i - length (dv_refs d3)) (map (fun _ : Z * Z => 1) segsA) 0 = 1).
+      + rewrite nth_firstn_app2 by lia.
+        assert (Hone : nth (i - F) (map (fun _ : Z * Z => 1) segsA) 0 = 1).
         { rewrite (nth_map_lt (fun _ : Z * Z => 1) _ _ _ (0, 0)) by lia. reflexivity. }
-        rewrite Hone. rewrite (cnt_zero_beyond (dv_dev d1)) by (try apply I; lia).
+        rewrite Hone. rewrite cnt_zero_unused.
+        2:{ intros p Hp. destruct (uses p i) eqn:Eu; [|reflexivity]. destruct (Hold_lt p i Hp Eu). lia. }
         assert (idle i = 0). { unfold idle. destruct (Nat.eqb_spec i 0); [lia|reflexivity]. }
         lia.
     - (* every program's slots hold its data *)
@@ -533,18 +605,14 @@ Section history.
       + split; cbn [pg_w2s pg_segs].
         * unfold w4. rewrite assign_mask_length, map_length. lia.
         * intros j x Hx. destruct (Hentry j x Hx) as (i & Hi1 & Hi2 & Hi3 & _).
-          exists i. split; [exact Hi1|]. split; [rewrite app_length, map_length; lia|exact Hi3].
+          exists i. split; [exact Hi1|]. split; [rewrite firstn_app_length, map_length by lia; lia|exact Hi3].
       + pose proof (j_progs _ I) as Hall. rewrite Forall_forall in *. intros p Hp.
         destruct (Hall p Hp) as [Hlen Hslots]. split; [exact Hlen|].
         intros j q Hq. destruct (Hslots j q Hq) as (i & -> & Hi & Hcont).
-        exists i. split; [reflexivity|]. split; [rewrite app_length; lia|].
-        rewrite app_nth1 by lia. rewrite Hold; [exact Hcont|lia|].
-        intros Hin. apply in_map_iff in Hin as ((s, (h, l)) & Hs & Hin). cbn in Hs. subst s.
-        destruct (Hw i h l Hin) as (Hlt & _ & _ & Hz & _).
-        pose proof (j_refs _ I i Hlt) as Hr.
-        assert (1 <= cnt (dv_known d1) i).
-        { apply (cnt_in _ p); [exact Hp|]. apply uses_spec. eapply nth_error_In. exact Hq. }
-        unfold idle in Hr. destruct (Nat.eqb i 0); lia.
+        assert (Hu : uses p i = true) by (apply uses_spec; eapply nth_error_In; exact Hq).
+        destruct (Hold_lt p i Hp Hu) as [HiF Hni].
+        exists i. split; [reflexivity|]. split; [rewrite firstn_app_length by lia; lia|].
+        rewrite nth_firstn_app1 by lia. rewrite Hold; [exact Hcont|lia|exact Hni].
     - rewrite Hbel3. reflexivity.
     - rewrite Hk3. cbn [d2 with_refs dv_known]. constructor; [exact Hname|apply I].
   Qed.
@@ -698,34 +766,88 @@ Proof.
   - apply Forall_firstn. exact H2.
 Qed.
 
+(* reference counts after the slot writes: a positive count was positive before or the slot was written *)
+Lemma do_writes_refs_pos ws : forall d k,
+  0 < nth k (dv_refs (fst (do_writes d ws))) 0 -> 0 < nth k (dv_refs d) 0 \/ In k (map fst ws).
+Proof.
+  induction ws as [|(s, (h, l)) ws IH]; intros d k H; cbn in *; [auto|].
+  unfold upload_segment in H.
+  destruct (negb _); [cbn in H; auto|]. destruct (0 <? _); [cbn in H; auto|]. destruct (_ <? l); [cbn in H; auto|].
+  destruct (do_writes _ ws) as [d' [e|]] eqn:E;
+    match type of E with do_writes ?D _ = _ =>
+      (assert (H' : 0 < nth k (dv_refs (fst (do_writes D ws))) 0) by (rewrite E; exact H)) end;
+    apply IH in H'; cbn [dv_refs] in H';
+    (destruct H' as [H'|H']; [|auto]);
+    (destruct (Nat.eq_dec s k) as [->|Hne]; [auto|]); rewrite nth_set_nth_neq in H' by exact Hne; auto.
+Qed.
+
+Lemma do_writes_refs_length ws : forall d, length (dv_refs (fst (do_writes d ws))) = length (dv_refs d).
+Proof.
+  induction ws as [|(s, (h, l)) ws IH]; intros d; cbn; [reflexivity|].
+  unfold upload_segment.
+  destruct (negb _); [reflexivity|]. destruct (0 <? _); [reflexivity|]. destruct (_ <? l); [reflexivity|].
+  destruct (do_writes _ ws) as [d' [e|]] eqn:E;
+    match type of E with do_writes ?D _ = _ => pose proof (IH D) as H; rewrite E in H end;
+    cbn in *; rewrite set_nth_length in H; exact H.
+Qed.
+
+Lemma used_end_upto_ge mem dec n k : (k < n)%nat -> usedb mem dec k = true -> (S k <= used_end_upto mem dec n)%nat.
+Proof.
+  induction n as [|n IH]; intros Hk Hu; [lia|]. cbn.
+  destruct (usedb mem dec n) eqn:E; [lia|].
+  destruct (Nat.eq_dec k n) as [->|]; [congruence|]. apply IH; [lia|exact Hu].
+Qed.
+
+Lemma zsum_firstn_mono a b l : (a <= b)%nat -> Forall (fun x => 0 <= x) l -> zsum (firstn a l) <= zsum (firstn b l).
+Proof.
+  unfold zsum. revert a b; induction l as [|x l IH]; intros [|a] [|b] H Hl; cbn; try lia.
+  - inversion Hl; subst. pose proof (IH 0%nat b ltac:(lia) H3) as H'. cbn in H'. lia.
+  - inversion Hl; subst. pose proof (IH a b ltac:(lia) H3). lia.
+Qed.
+
+(* the capacity invariant needs no guard any more: upload() cleans up right before it appends *)
 Lemma K_upload_core d1 name segs :
-  J d1 -> K d1 -> no_trailing_free d1 = true -> forallb (fun s => 0 <=? snd s) segs = true ->
+  J d1 -> K d1 -> forallb (fun s => 0 <=? snd s) segs = true ->
   K (fst (upload_core find_place d1 name segs)).
 Proof.
-  intros I [Hs Hnn] Hg Hlens. unfold upload_core.
+  intros I [Hs Hnn] Hlens. unfold upload_core.
   set (mem := {| m_hashes := dv_hashes d1; m_refs := dv_refs d1; m_caps := dv_caps d1; m_total := dv_total d1 |}).
   destruct (find_place mem (map fst segs) (map snd segs)) as [dec|e] eqn:Ep; [|constructor; assumption].
   pose proof (find_place_decision_ok mem _ _ _ (J_refs_nonneg d1 I) Ep) as (_ & _ & C3 & _).
   set (d2 := with_refs d1 _).
   destruct (do_writes_caps (writes_of (d_insert dec) segs) d2) as [Ec Et].
-  destruct (do_writes d2 (writes_of (d_insert dec) segs)) as [d3 [e|]]; cbn [fst] in Ec, Et.
+  pose proof (do_writes_refs_pos (writes_of (d_insert dec) segs) d2) as Hpos.
+  pose proof (do_writes_refs_length (writes_of (d_insert dec) segs) d2) as Hlen3.
+  destruct (do_writes d2 (writes_of (d_insert dec) segs)) as [d3 [e|]]; cbn [fst] in Ec, Et, Hpos, Hlen3.
   - cbn [fst]. constructor; rewrite ?Ec, ?Et; assumption.
   - destruct (existsb (fun b => b) (d_amend dec)).
     2:{ cbn [fst]. constructor; cbn [with_known dv_caps dv_total]; rewrite ?Ec, ?Et; assumption. }
-    (* the last slot is referenced, so "behind the last used slot" is "behind all slots" *)
-    assert (Hue : used_end mem dec = length (dv_refs d1)).
-    { unfold used_end. cbn [mem m_refs]. unfold no_trailing_free in Hg. apply Nat.eqb_eq in Hg.
-      destruct (first_free_spec (dv_refs d1)) as (_ & Hlast & _). rewrite Hg in Hlast.
-      destruct Hlast as [H0|(k & Hk & Hm)].
-      - pose proof (j_pos _ I). lia.
-      - rewrite Hk. cbn [used_end_upto]. unfold usedb. cbn [mem m_refs].
-        rewrite (nth_map_lt (fun r => 0 <? r) _ _ _ 0) in Hm by lia. rewrite Hm. reflexivity. }
-    unfold clause_amend in C3. rewrite Hue in C3. cbn [mem m_total m_caps] in C3.
-    rewrite <- (j_len_c _ I), firstn_all in C3.
-    unfold amend. cbn [fst]. constructor; cbn [with_known dv_caps dv_total]; rewrite Ec, ?Et;
-      cbn [d2 with_refs dv_caps dv_total].
+    (* the cleanup keeps at most the slots up to the last used one (referenced before, reused or written now) *)
+    set (F := first_free_of (dv_refs d3)).
+    assert (HFle : (F <= used_end mem dec)%nat).
+    { destruct (first_free_spec (dv_refs d3)) as (Hlen & Hlast & _). fold F in Hlen, Hlast.
+      destruct Hlast as [H0|(k & Hk & Hm)]; [lia|]. rewrite Hk.
+      assert (Hk3 : (k < length (dv_refs d3))%nat) by lia.
+      rewrite (nth_map_lt (fun r => 0 <? r) _ _ _ 0) in Hm by lia.
+      assert (Hkn : (k < length (dv_refs d1))%nat).
+      { rewrite Hlen3 in Hk3. cbn [d2 with_refs dv_refs] in Hk3. rewrite incr_at_length in Hk3. exact Hk3. }
+      unfold used_end. cbn [mem m_refs]. apply used_end_upto_ge; [exact Hkn|].
+      unfold usedb. cbn [mem m_refs].
+      destruct (Hpos k ltac:(lia)) as [H|H].
+      - cbn [d2 with_refs dv_refs] in H. rewrite nth_incr_known in H by exact Hkn.
+        destruct (existsb (Z.eqb (Z.of_nat k)) (d_w2s dec)); [rewrite orb_true_r; reflexivity|].
+        assert (E : 0 <? nth k (dv_refs d1) 0 = true) by lia. rewrite E. reflexivity.
+      - apply in_map_iff in H as ((s, hl) & Hs' & Hin). cbn in Hs'. subst s.
+        apply writes_of_spec in Hin as (j & q & Hq & Hq0 & -> & _).
+        assert (E : existsb (Z.eqb (Z.of_nat (Z.to_nat q))) (d_insert dec) = true).
+        { apply existsb_Z_in. rewrite Z2Nat.id by lia. eapply nth_error_In. exact Hq. }
+        rewrite E. apply orb_true_r. }
+    unfold clause_amend in C3. cbn [mem m_total m_caps] in C3.
+    pose proof (zsum_firstn_mono _ _ _ HFle Hnn) as Hmono.
+    unfold amend, cleanup. cbn [fst]. constructor; cbn [with_known dv_caps dv_total]; rewrite Ec, ?Et;
+      cbn [d2 with_refs dv_caps dv_total]; fold F.
     + rewrite zsum_app. rewrite <- mask_map. pose proof (zsum_plus16 (mask (d_amend dec) (map snd segs))). lia.
-    + apply Forall_app. split; [exact Hnn|]. rewrite <- mask_map. apply Forall_mask.
+    + apply Forall_app. split; [apply Forall_firstn; exact Hnn|]. rewrite <- mask_map. apply Forall_mask.
       apply Forall_forall. intros x Hx. apply in_map_iff in Hx as (s & <- & Hin).
       rewrite forallb_forall in Hlens. specialize (Hlens s Hin). lia.
 Qed.
@@ -733,71 +855,61 @@ Qed.
 Lemma K_clear t : 192 <= t -> K (clear t).
 Proof. intros H. constructor; cbn; [lia|repeat constructor; lia]. Qed.
 
+Lemma upload_core_total d1 name segs : dv_total (fst (upload_core find_place d1 name segs)) = dv_total d1.
+Proof.
+  unfold upload_core. destruct (find_place _ _ _) as [dec|]; [|reflexivity].
+  set (d2 := with_refs d1 _).
+  destruct (do_writes_caps (writes_of (d_insert dec) segs) d2) as [_ Et].
+  destruct (do_writes d2 _) as [d3 [e|]]; cbn [fst] in *; [exact Et|].
+  destruct (existsb _ (d_amend dec)); cbn; exact Et.
+Qed.
+
 Lemma JK_run ops : forall d,
-  192 <= dv_total d -> J d -> K d -> guard_C19_append_behind_freed_slots d ops = true ->
-  K (run d ops) /\ J (run d ops).
+  192 <= dv_total d -> J d -> K d -> ops_lens_nonneg ops = true ->
+  K (run d ops) /\ J (run d ops) /\ dv_total (run d ops) = dv_total d.
 Proof.
   induction ops as [|o ops IH]; intros d Ht I Kd Hg; cbn in *; [auto|].
   apply andb_prop in Hg as [Hg1 Hg2].
   assert (I' : J (fst (step_with find_place d o))) by (apply J_step; [exact find_place_decision_ok|exact I]).
   assert (K' : K (fst (step_with find_place d o)) /\ dv_total (fst (step_with find_place d o)) = dv_total d).
-  { destruct o as [name segs force|name|name| |]; cbn [step_with op_guard] in *.
-    - apply andb_prop in Hg1 as [Hn Hl]. rewrite upload_with_unfold. unfold pre_state in Hn.
-      assert (Htot : forall d1, dv_total (fst (upload_core find_place d1 name segs)) = dv_total d1).
-      { intros d1. unfold upload_core. destruct (find_place _ _ _) as [dec|]; [|reflexivity].
-        set (d2 := with_refs d1 _).
-        destruct (do_writes_caps (writes_of (d_insert dec) segs) d2) as [_ Et].
-        destruct (do_writes d2 _) as [d3 [e|]]; cbn [fst] in *; [exact Et|].
-        destruct (existsb _ (d_amend dec)); cbn; exact Et. }
+  { destruct o as [name segs force|name|name| |]; cbn [step_with op_lens_nonneg] in *.
+    - rewrite upload_with_unfold.
       destruct (existsb (fun p => Nat.eqb (pg_name p) name) (dv_known d)) eqn:Eex.
       + destruct force; [|auto].
         pose proof (J_free d name I) as I1. pose proof (K_free d name Kd) as K1.
         destruct (free_program_caps d name) as [_ Et1].
         destruct (free_program d name) as [d1 [e|]]; cbn [fst] in *; [auto|].
-        split; [apply K_upload_core; assumption|]. rewrite Htot. exact Et1.
-      + split; [apply K_upload_core; assumption|apply Htot].
+        split; [apply K_upload_core; assumption|]. rewrite upload_core_total. exact Et1.
+      + split; [apply K_upload_core; assumption|apply upload_core_total].
     - split; [apply K_free; exact Kd|apply free_program_caps].
     - pose proof (K_free d name Kd) as K1. destruct (free_program_caps d name) as [_ Et1].
       destruct (free_program d name) as [d1 [e|]]; cbn [fst] in *; [auto|].
       split; [apply K_cleanup; exact K1|exact Et1].
     - split; [apply K_cleanup; exact Kd|reflexivity].
     - split; [apply K_clear; exact Ht|reflexivity]. }
-  destruct K' as [K' Ht']. apply IH; auto. rewrite Ht'. exact Ht.
+  destruct K' as [K' Ht'].
+  destruct (IH (fst (step_with find_place d o)) ltac:(rewrite Ht'; exact Ht) I' K' Hg2) as (H1 & H2 & H3).
+  unfold run in *. split; [exact H1|]. split; [exact H2|]. rewrite H3. exact Ht'.
 Qed.
 
-Theorem history_capacity_guarded total ops :
-  192 <= total -> guard_C19_append_behind_freed_slots (clear total) ops = true ->
+(* Capacity, unguarded: after every history the capacities of the defined slots fit into the instrument *)
+Theorem history_capacity total ops :
+  192 <= total -> ops_lens_nonneg ops = true ->
   zsum (dv_caps (run (clear total) ops)) <= total.
 Proof.
-  intros Ht Hg. destruct (JK_run ops (clear total) Ht (J_clear total) (K_clear total Ht) Hg) as [[Hs _] _].
-  assert (Htot : forall ops d, dv_total (run d ops) = dv_total d).
-  { clear. induction ops as [|o ops IH]; intros d; cbn; [reflexivity|]. unfold run in IH. rewrite IH.
-    destruct o as [name segs force|name|name| |]; cbn [step_with].
-    - rewrite upload_with_unfold.
-      assert (Htot : forall d1, dv_total (fst (upload_core find_place d1 name segs)) = dv_total d1).
-      { intros d1. unfold upload_core. destruct (find_place _ _ _) as [dec|]; [|reflexivity].
-        set (d2 := with_refs d1 _).
-        destruct (do_writes_caps (writes_of (d_insert dec) segs) d2) as [_ Et].
-        destruct (do_writes d2 _) as [d3 [e|]]; cbn [fst] in *; [exact Et|].
-        destruct (existsb _ (d_amend dec)); cbn; exact Et. }
-      destruct (existsb _ (dv_known d)); [|apply Htot]. destruct force; [|reflexivity].
-      destruct (free_program_caps d name) as [_ Et1].
-      destruct (free_program d name) as [d1 [e|]]; cbn [fst] in *; [exact Et1|]. rewrite Htot. exact Et1.
-    - apply free_program_caps.
-    - destruct (free_program_caps d name) as [_ Et1].
-      destruct (free_program d name) as [d1 [e|]]; cbn [fst] in *; [exact Et1|]. exact Et1.
-    - reflexivity.
-    - reflexivity. }
+  intros Ht Hg. destruct (JK_run ops (clear total) Ht (J_clear total) (K_clear total Ht) Hg) as ([Hs _] & _ & Htot).
   rewrite Htot in Hs. exact Hs.
 Qed.
 
-(* the unguarded statement is false for the modelled driver (and for the real one, see corpus/C19): a forced re-upload
-   frees slots 2..4, the placement counts them as reclaimed, the new segments are appended behind them *)
+(* the history that over-committed the memory before the repair (a forced re-upload frees slots 2..4, the placement
+   counts them as reclaimed, the new segments were appended behind them: 2032 > 2000) now stays within the capacity *)
 Definition overflow_ops : list op :=
   [OUpload 1 [(11, 208); (15, 400); (26, 256); (4, 192)] true; OUpload 1 [(11, 208); (25, 400); (23, 384)] true].
-Lemma capacity_overflow_witness :
-  exists total ops, 192 <= total /\ ~ zsum (dv_caps (run (clear total) ops)) <= total.
-Proof. exists 2000, overflow_ops. split; [lia|]. vm_compute. intros H. apply H. reflexivity. Qed.
+Example former_overflow_witness :
+  ops_lens_nonneg overflow_ops = true /\
+  dv_caps (run (clear 2000) overflow_ops) = [192; 208; 400; 384] /\
+  map pg_w2s (dv_known (run (clear 2000) overflow_ops)) = [[1; 2; 3]].
+Proof. vm_compute. repeat split. Qed.
 
-Example ex_ops_guard : guard_C19_append_behind_freed_slots (clear 100000) ex_ops = true.
+Example ex_ops_lens : ops_lens_nonneg ex_ops = true.
 Proof. vm_compute. reflexivity. Qed.
